@@ -21,6 +21,7 @@ RULE = ('cases: sources of length 0-6 as list / tuple / range / generator / plai
         'position >=1; distinct by case hash')
 ASSUMPTIONS = ['full consumption only (early break is outside the statement)', 'the loop= argument is idle and not shared',
                'cooperative shims (ThreadPoolExecutor, queue.Queue) faithful (selftest)']
+CORPUS_PREEMPTIONS = {}
 BUDGET = {'quick': 300, 'thorough': 8000}
 ESSENTIAL = ['nontrivial', 'dir=s2a', 'dir=a2s', 'fails']
 TICK = H.TICK
